@@ -20,6 +20,8 @@ type verifOllaStep struct {
 	Op    string              `json:"op"` // boot | up | relist | health | req
 	Kind  map[string]string   `json:"kind"`
 	Lists map[string][]string `json:"lists"`
+	LB    string              `json:"lb"`
+	Prio  map[string]int      `json:"prio"`
 	E     string              `json:"e"`
 	B     string              `json:"b"` // up | sick | down
 	S     []string            `json:"S"`
@@ -91,11 +93,11 @@ func TestVerif_Olla(t *testing.T) {
 		sort.Strings(names)
 		opts := make([]verifEndpointOpt, len(names))
 		for i, n := range names {
-			opts[i] = verifEndpointOpt{Type: boot.Kind[n], Models: append([]string{}, boot.Lists[n]...)}
+			opts[i] = verifEndpointOpt{Type: boot.Kind[n], Priority: 100 * boot.Prio[n], Models: append([]string{}, boot.Lists[n]...)}
 		}
-		stk, err := verifBoot("sherpa", "round-robin", "auto", opts, nil)
+		stk, err := verifBoot("sherpa", boot.LB, "auto", opts, nil)
 		if err != nil {
-			emit("Boot", "scn", sn, "booted", false, "kind", boot.Kind, "lists", boot.Lists, "known", map[string][]string{}, "status", map[string]string{})
+			emit("Boot", "scn", sn, "booted", false, "kind", boot.Kind, "lb", boot.LB, "prio", boot.Prio, "lists", boot.Lists, "known", map[string][]string{}, "status", map[string]string{})
 			return
 		}
 		defer stk.Close()
@@ -115,7 +117,7 @@ func TestVerif_Olla(t *testing.T) {
 				return zzverif.Plan{Kind: "ok", Status: 200, N: 2}
 			}
 		}
-		emit("Boot", "scn", sn, "booted", true, "kind", boot.Kind, "lists", boot.Lists, "known", stk.verifOllaKnown(), "status", stk.statuses())
+		emit("Boot", "scn", sn, "booted", true, "kind", boot.Kind, "lb", boot.LB, "prio", boot.Prio, "lists", boot.Lists, "known", stk.verifOllaKnown(), "status", stk.statuses())
 		reqNo := 0
 		for _, st := range steps[1:] {
 			switch st.Op {
